@@ -145,6 +145,19 @@ Theorem atkeyword_lookup_sweep_finite : forallb (fun c => tok_is (fst c) (snd c)
 Proof. exact at_sweep. Qed.
 Print Assumptions atkeyword_lookup_sweep_finite.
 
+(* ---- configuration: classification is a function of the production list only.  The DXImageTransform setting
+   prepends dx_production; for every text that does not start with 'p' the first token is unchanged ---- *)
+Theorem dx_setting_irrelevant : forall c t dc prev, N.eqb c 112 = false ->
+  try_prods (dx_production :: productions) dc false prev (c :: t) = try_prods productions dc false prev (c :: t).
+Proof. exact dx_irrelevant_lemma. Qed.
+Print Assumptions dx_setting_irrelevant.
+Example dx_setting_example :
+  try_prods (dx_production :: productions) true false None (s "progid:DXImageTransform.Microsoft.Alpha(opacity=50)") =
+    Some (Step (s "FUNCTION") (s "progid:DXImageTransform.Microsoft.Alpha(") true) /\
+  try_prods productions true false None (s "progid:DXImageTransform.Microsoft.Alpha(opacity=50)") =
+    Some (Step (s "IDENT") (s "progid") true).
+Proof. exact dx_function_example. Qed.
+
 (* ---- escape resolution ----
    hex_escape_resolved (partial): for EVERY canonical element list in which an escaped backslash is not
    directly followed by a hex digit (wfu_els), Tokenizer.unicodesub returns the denoted characters:
